@@ -437,6 +437,11 @@ namespace sim
             fault_point(FK_THROW);
             registry().on_construct(this, Tag, id, moved);
         }
+        struct no_fault {};
+        explicit Tracked(no_fault) noexcept : id(0), where(here(this)), moved(false)     // a constructor that cannot fail
+        {
+            registry().on_construct(this, Tag, id, moved);
+        }
         Tracked(const Tracked& o) : id(0), where(here(this)), moved(false)
         {
             registry().use(&o, Tag, "copy construction from");
